@@ -158,6 +158,27 @@ def run(tier, replay=None):
                     ck.violation("a string literal spanning lines (inner line ends in %s): %r prints %r with -eval but %r in %s mode%s" % (
                         ename, txt[:120], ref[3][:120], norm[:200], mode, "" if nl or mode == "repl" else " without a final line break"), {"statement": txt, "mode": mode, "stdout": norm})
         ck.part("mode agreement on string literals spanning lines with unusual inner line ends", statements=len(ag), runs=len(agjobs))
+        # ---- what a statement wrote before it failed comes before the report of the failure, and later statements' output after it, in
+        # file mode as in the REPL (the report itself carries addresses and is not compared)
+        orders = []
+        for body, nb in (('write("before\\n")\n10 / n', 1), ('write("bef")\nwrite("ore\\n")\n[1][n + 5]', 1), ('for i <- fromto(0, 3) write("before\\n")\n"a" + n', 3)):
+            script = 'f = (n) -> {\n' + body + '\n}\nwrite("start\\n")\nf(0)\nwrite("after\\n")\nf(0)\nwrite("end\\n")\n'
+            orders.append((script, nb))
+        ojobs = [(sc, nb, mode) for sc, nb in orders for mode in ("file", "repl")]
+        import re as _re
+        with concurrent.futures.ThreadPoolExecutor(max_workers=vlib.NCPU) as ex:
+            futs = {ex.submit(run_calc, calc, mode, sc, tmpdir, 300000 + k): (sc, nb, mode) for k, (sc, nb, mode) in enumerate(ojobs)}
+            for f in concurrent.futures.as_completed(futs):
+                sc, nb, mode = futs[f]
+                rc, out, err = f.result()
+                ck.cov["evaluations"] += 1
+                ck.cov["traces_validated_against_impl"] += 1
+                seq = _re.findall(r"start|before|RUNTIME ERROR|after|end", out)
+                want = ["start"] + ["before"] * nb + ["RUNTIME ERROR", "after"] + ["before"] * nb + ["RUNTIME ERROR", "end"]
+                if rc != 0 or seq != want:
+                    ck.violation("%s mode: the output of a statement that fails and the report of its failure come out as %s, expected %s: %r" % (mode, seq, want, sc[:120]),
+                                 {"script": sc, "mode": mode, "stdout": out[:2000]})
+        ck.part("order of output and failure reports", scripts=len(orders), runs=len(ojobs))
     ck.cov["rule"] = ("all scripts of <= %d statements over 24 statement shapes (incl. a multi-line string inside an open block and inside an open array literal) (plain, value, strings and comments containing { } [ ] \" ;, escaped quote, multi-line block / block with a brace in a string / "
                       "array literal / string, blank and comment lines), each in file mode with and without a final line break and in REPL mode; plus single statements whose values CalcSem specifies, in "
                       "-eval, REPL and file mode; non-trivial = a multi-line statement or a string/comment containing a grouping character" % n)
